@@ -38,8 +38,8 @@ def generate(gen, tier):
     n = 300 if tier == 'quick' else 12000
     cases = []
     for i in range(n):
-        cls = rng.choices(['suffix', 'variant', 'suffix+variant', 'nested', 'near', 'unrelated', 'same'],
-                          weights=[20, 15, 20, 20, 15, 5, 5])[0]
+        cls = rng.choices(['suffix', 'variant', 'suffix+variant', 'nested', 'near', 'unrelated', 'same', 'near+variant', 'rename'],
+                          weights=[20, 15, 20, 20, 12, 5, 5, 8, 8])[0]
         if cls == 'nested':
             p = nested_dict_pair(gen)
             # the prefix keeps only the top of each child
@@ -61,6 +61,24 @@ def generate(gen, tier):
                 f = vary_dicts(gen, substitute_leaves(gen, p, 0.4, 2))
             elif cls == 'near':
                 f, _ = near_miss(gen, substitute_leaves(gen, p, 0.2, 1))
+            elif cls == 'near+variant':
+                # a near miss whose dict nodes also change kind / factory / key order (a defaultdict with a factory
+                # never raises KeyError: key-set comparisons must not rely on subscripting)
+                f, _ = near_miss(gen, relabel_leaves(gen, p))
+                f = vary_dicts(gen, f, p_kind=0.9, p_order=0.5)
+            elif cls == 'rename':
+                # same-size key sets that differ in one key, flat children, any pair of dict kinds
+                ks = gen.keyset(rng.choice([1, 2, 3]), rng.choice(['str', 'int', 'mixed']))
+                kp, kf = rng.choice(['D', 'O', 'DD']), rng.choice(['D', 'O', 'DD', 'DD'])
+                items_p = [[k, gen.leaf(0)] for k in ks]
+                items_f = [[k, gen.leaf(0)] for k in ks]
+                j = rng.randrange(len(items_f))
+                items_f[j] = [[A('s'), 'zzz-renamed'], items_f[j][1]]
+                rng.shuffle(items_f)
+                mkd = lambda kind, items: [A('DD'), rng.choice([0, 1, 2, 3, A('N')]), *items] if kind == 'DD' else [A(kind), *items]  # noqa: E731
+                p, f = mkd(kp, items_p), mkd(kf, items_f)
+                if rng.random() < 0.5:
+                    p, f = [A('l'), p, gen.leaf(0)], [A('l'), f, gen.leaf(0)]
             elif cls == 'unrelated':
                 f = gen.tree(depth=2, width=3)
             else:
@@ -131,9 +149,14 @@ def oracle(impl, o):
             leaves_f, sf = optree.tree_flatten(f, **kw)
         except Exception:
             return []
+        enc_before = (render(u.enc_obj(p)), render(u.enc_obj(f)), render(u.enc_spec(sp)), render(u.enc_spec(sf)))
         r_up = outcome(lambda: sp.flatten_up_to(f))
         r_is = outcome(lambda: sp.is_prefix(sf))
         r_pe = outcome(lambda: optree.prefix_errors(p, f, **kw))
+        enc_after = (render(u.enc_obj(p)), render(u.enc_obj(f)), render(u.enc_spec(sp)), render(u.enc_spec(sf)))
+        if enc_before != enc_after:
+            fails.append({'key': 'operand-mutated', 'what': 'flatten_up_to / is_prefix / prefix_errors modified an operand tree or treespec',
+                          'before': enc_before[1][:200], 'after': enc_after[1][:200]})
         if r_up[0] == 'err' and r_up[1] != 'ValueError':
             fails.append({'key': 'flatten-up-to-raises-' + r_up[1], 'what': f'flatten_up_to raised {r_up[1]}: {r_up[2]}'})
         if r_is[0] == 'err':
